@@ -71,6 +71,7 @@ func c05Shapes() []linkShape {
 		add("through-link-out-dir", "{UP}sub/deep/top/../outside/dir")
 		add("through-link-out-dangling", "{UP}sub/deep/top/../outside/not-there-yet")
 		add("through-link-out-long-winded", strings.Repeat("./", 300)+"{UP}sub/deep/top/../outside/file.txt")
+		add("through-link-twice-out", "{UP}sub/deep/top/sub/deep/top/../outside/file.txt")
 		add("through-link-stays-inside", "{UP}sub/deep/up1/../a.txt")
 		// ".." after a regular file: nothing can be reached through a file,
 		// the link dangles and leads nowhere
@@ -522,7 +523,7 @@ func init() {
 	fw.Register(&fw.Property{
 		ID:    "C05",
 		Level: "exploration",
-		Rule: "a source tree with a prefix-sharing sibling (src / src-evil) and an outside area full of OUTSIDE-<n> canaries gets 1-6 links of 35 shapes (incl. links that stay inside as written but are led outside by another link) (in-tree: same dir, via root, dir, dot, dangling, dotted; out-of-tree: relative file/dir/dangling, sibling-prefix, via the root's own name, absolute in/out, chains in->out, out->in, out->out, external directory with inner links, parent, root itself) at 3 depths; " +
+		Rule: "a source tree with a prefix-sharing sibling (src / src-evil) and an outside area full of OUTSIDE-<n> canaries gets 1-6 links of 36 shapes (incl. links that stay inside as written but are led outside by another link) (in-tree: same dir, via root, dir, dot, dangling, dotted; out-of-tree: relative file/dir/dangling, sibling-prefix, via the root's own name, absolute in/out, chains in->out, out->in, out->out, external directory with inner links, parent, root itself) at 3 depths; " +
 			"packed with {dereference on/off} x {ignore on/off} x 5 allow-list settings x {fresh Packer, a Packer that packed another root at another depth before}; the slug is decoded independently and every entry is compared with the tree and with the physical target of its link; slugs from all-relative trees are handed to Unpack. Exhaustive over single shapes x option sets, PRNG over combinations. " +
 			"non-trivial = some link leaves the tree or approaches its boundary; distinct = links x options",
 		Assumptions: []string{"a link is out-of-tree when the place its target names, from the link's real location, is outside the source directory (component-wise)", "absolute links that point into the tree may be stored as absolute link entries (pinned by the repository's tests); such trees are exempt from the 'Unpack accepts' clause", "link cycles and links to special files belong to C19"},
